@@ -144,11 +144,11 @@ theorem source_facts_are_documented_format :
     written, slot for slot and register for register. -/
 theorem translated_source_keeps_format_u32 (kd : α) (vd : β) (s : Tree α β) (h : Tree.Reach cfgU32 s) (k : α) (v : β) :
     (∃ s' r, Tree.Reach cfgU32 s' ∧
-      (Gen32.insert (Imp.dflt kd vd) (Gen32.from_bytes_mut (Imp.dflt kd vd) (s.image cfgU32 kd vd)) k v).getD
-          (Gen32.from_bytes_mut (Imp.dflt kd vd) (s.image cfgU32 kd vd), none) = (s'.image cfgU32 kd vd, r)) ∧
+      Gen32.insert (Imp.dflt kd vd) (Gen32.from_bytes_mut (Imp.dflt kd vd) (s.image cfgU32 kd vd)) k v
+        = some (s'.image cfgU32 kd vd, r)) ∧
     (∃ s' r, Tree.Reach cfgU32 s' ∧
       Gen32.remove (Imp.dflt kd vd) (Gen32.from_bytes_mut (Imp.dflt kd vd) (s.image cfgU32 kd vd)) k
-        = (s'.image cfgU32 kd vd, r)) := by
+        = some (s'.image cfgU32 kd vd, r)) := by
   obtain ⟨s1, r1, h1, _, e1⟩ := Gen32.transition_insert kd vd s h k v
   obtain ⟨s2, r2, h2, _, e2⟩ := Gen32.transition_remove kd vd s h k
   exact ⟨⟨s1, r1, h1, e1⟩, ⟨s2, r2, h2, e2⟩⟩
@@ -158,11 +158,11 @@ theorem translated_source_keeps_format_u32 (kd : α) (vd : β) (s : Tree α β) 
     written, slot for slot and register for register. -/
 theorem translated_source_keeps_format_u8 (kd : α) (vd : β) (s : Tree α β) (h : Tree.Reach cfgU8 s) (k : α) (v : β) :
     (∃ s' r, Tree.Reach cfgU8 s' ∧
-      (Gen8.insert (Imp.dflt kd vd) (Gen8.from_bytes_mut (Imp.dflt kd vd) (s.image cfgU8 kd vd)) k v).getD
-          (Gen8.from_bytes_mut (Imp.dflt kd vd) (s.image cfgU8 kd vd), none) = (s'.image cfgU8 kd vd, r)) ∧
+      Gen8.insert (Imp.dflt kd vd) (Gen8.from_bytes_mut (Imp.dflt kd vd) (s.image cfgU8 kd vd)) k v
+        = some (s'.image cfgU8 kd vd, r)) ∧
     (∃ s' r, Tree.Reach cfgU8 s' ∧
       Gen8.remove (Imp.dflt kd vd) (Gen8.from_bytes_mut (Imp.dflt kd vd) (s.image cfgU8 kd vd)) k
-        = (s'.image cfgU8 kd vd, r)) := by
+        = some (s'.image cfgU8 kd vd, r)) := by
   obtain ⟨s1, r1, h1, _, e1⟩ := Gen8.transition_insert kd vd s h k v
   obtain ⟨s2, r2, h2, _, e2⟩ := Gen8.transition_remove kd vd s h k
   exact ⟨⟨s1, r1, h1, e1⟩, ⟨s2, r2, h2, e2⟩⟩
